@@ -455,6 +455,8 @@ def run(ctx):
     ctx.layer('dssp2cg', acc)
     from props import c17_cli
     c17_cli.run_layer(ctx)
+    from props import c17_dssp
+    c17_dssp.run_layer(ctx)
 
 
 def replay(case):
@@ -463,6 +465,9 @@ def replay(case):
     if case['layer'] == 'cli':
         from props import c17_cli
         return c17_cli.replay(case)
+    if case['layer'] == 'dssp':
+        from props import c17_dssp
+        return c17_dssp.replay(case)
     if case['layer'] == 'history':
         check_history([tuple(o) for o in case['ops']], acc)
     elif case['layer'] == 'assign':
